@@ -19,6 +19,7 @@ import (
 	"time"
 
 	"github.com/ProtonMail/go-crypto/openpgp"
+	"github.com/ProtonMail/go-crypto/openpgp/armor"
 	"github.com/ProtonMail/go-crypto/openpgp/packet"
 
 	"github.com/sassoftware/relic/v8/cmdline/shared"
@@ -80,6 +81,7 @@ type c13Case struct {
 	Strategy string `json:"strategy"` // whole patch writefile pgp-detached pgp-inline pgp-clearsign msi pe-fixup
 	DestMode string `json:"dest"`     // other-absent other-present same
 	HardLink bool   `json:"hardlink"`
+	Armor    bool   `json:"armor,omitempty"` // pgp-inline: ASCII-armored output
 	// the input's name is <output>.tmp-unsigned and its mtime is old
 	InNamedLikeTemp bool      `json:"in_named_like_temp,omitempty"`
 	RespBreak       int       `json:"resp_break"` // >0: the response stream fails after that many bytes (whole/pgp-detached)
@@ -300,6 +302,9 @@ func c13Entry(c *c13Case, in, dest string) error {
 		q := url.Values{}
 		if c.Strategy == "pgp-inline" {
 			q.Set("inline", "true")
+			if c.Armor {
+				q.Set("armor", "true")
+			}
 		} else if c.Strategy == "pgp-clearsign" {
 			q.Set("clearsign", "true")
 		}
@@ -429,14 +434,32 @@ func c13Gen(r *core.Run) *c13Case {
 		}
 	case "pgp-inline", "pgp-clearsign":
 		n := sizes[t.Choose(4, "inlen")]
+		if c.Strategy == "pgp-inline" {
+			// (armored output ends with lines the encoder writes only when it is
+			// closed; it is written 64 characters and one line break at a time, so
+			// such inputs are kept small: every write is a fault site)
+			c.Armor = t.Chance(1, 2, "armor")
+			if c.Armor && n > 1200 {
+				n = 1200
+			}
+		}
 		body := bytes.Repeat([]byte("line of text to be signed\n"), n/26+1)
 		c.In = body
 		c.Result = pgpSign(body, c.Strategy == "pgp-clearsign")
 		c.Mime = "application/pgp-signature"
 		if c.Strategy == "pgp-inline" {
+			armored := c.Armor
 			c.Valid = func(b []byte) bool {
 				var clear bytes.Buffer
-				_, err := pgptools.VerifyInline(bytes.NewReader(b), &clear, openpgp.EntityList{pgpKey()})
+				rd := io.Reader(bytes.NewReader(b))
+				if armored {
+					blk, err := armor.Decode(rd)
+					if err != nil {
+						return false
+					}
+					rd = blk.Body
+				}
+				_, err := pgptools.VerifyInline(rd, &clear, openpgp.EntityList{pgpKey()})
 				return err == nil && bytes.Equal(clear.Bytes(), body)
 			}
 		}
